@@ -65,9 +65,14 @@ class Registry(object):
         """fn(json_model, conv) -> real object; runs under /venv/bin/python in the replayer"""
         self.builders[clskey] = fn
 
-    def ghost(self, name, params, body, concrete=None):
+    def ghost(self, name, params, body, concrete=None, opaque=False):
         """spec function: body is a spec-dialect expression string, or callable(ex, st, *values)->Value
-        (then `concrete` is its twin on real Python objects for the replayer)"""
+        (then `concrete` is its twin on real Python objects for the replayer).
+        opaque=True: outside contracts that `reveal` it the ghost is an uninterpreted function of its arguments (the
+        solver sees f(args), not the body); a contract with reveal=[name] sees the body and the defining equation
+        f(args) == body."""
+        if opaque:
+            self.__dict__.setdefault('opaque_ghosts', set()).add(name)
         if concrete is not None:
             self.ghost_concrete[name] = concrete
         if isinstance(body, str):
